@@ -3015,6 +3015,7 @@ def _sat_formula(f):
         return True
 
 
+INIT_ONLY_ATTRS = None   # attributes of repo classes assigned in constructors only (set by reference_status)
 WEAK_EQ_ATTRS = None     # attribute names of repo classes that define __eq__ (set by reference_status from the program model)
 
 
@@ -3036,7 +3037,11 @@ def stale_memo(sm, new_locs):
                 continue
             if any(path == e or path.startswith(e + ".") for e in exclude):
                 continue
-            # a method called on the memo itself (self._memo.get) is not a read of other state
+            # a method called on a collaborator the object is CONFIGURED with (an attribute bound in the constructor only:
+            # self._script_tools.compile(..), self._network.parse...) is not a read of state that changes between calls
+            parts = path.split(".")
+            if text[m.end():m.end() + 1] == "(" and len(parts) == 3 and parts[0] in ("self", "cls") and INIT_ONLY_ATTRS is not None and parts[1] in INIT_ONLY_ATTRS:
+                continue
             reads.add(path)
         return reads
     from .ct import fmt_formula
@@ -3054,8 +3059,11 @@ def stale_memo(sm, new_locs):
         for it in stores:
             v = it.head.split(" = ", 1)[1] if " = " in it.head and not it.head.startswith("call ") else it.head
             v = v.split(" in loop")[0].split(" after ")[0]
-            computed_from |= state_reads(v, {loc})
-            computed_from |= state_reads(fmt_formula(it.cond) if it.cond not in (True, False) else "", {loc})
+            from_value = state_reads(v, {loc})
+            computed_from |= from_value
+            if not from_value and re.fullmatch(r"\s*(True|False|None|-?\d+|'[^']*'|b'[^']*')\s*", v.split(" = ", 1)[-1] if " = " in v else v):
+                # a flag: what it records is the condition under which it is set
+                computed_from |= state_reads(fmt_formula(it.cond) if it.cond not in (True, False) else "", {loc})
         if not computed_from:
             continue
         miss = f_or(*[it.cond for it in stores])         # the paths on which the memo is (re)filled
@@ -3573,6 +3581,17 @@ def reference_status(ctx, fi, ref_source, ref_names, int_names=None, leaf=None, 
                             for n_ in ast.walk(m_.node):
                                 if isinstance(n_, ast.Attribute) and isinstance(n_.ctx, ast.Store) and isinstance(n_.value, ast.Name) and n_.value.id == "self":
                                     WEAK_EQ_ATTRS.add(n_.attr)
+            global INIT_ONLY_ATTRS
+            if INIT_ONLY_ATTRS is None:
+                in_init, elsewhere = set(), set()
+                for q_, f_ in ctx.p.functions.items():
+                    if f_.cls is None or not isinstance(f_.node, (ast.FunctionDef, ast.AsyncFunctionDef)):
+                        continue
+                    tgt = in_init if f_.node.name in ("__init__", "__new__") else elsewhere
+                    for n_ in ast.walk(f_.node):
+                        if isinstance(n_, ast.Attribute) and isinstance(n_.ctx, (ast.Store, ast.Del)) and isinstance(n_.value, ast.Name) and n_.value.id in ("self", "cls"):
+                            tgt.add(n_.attr)
+                INIT_ONLY_ATTRS = in_init - elsewhere
             stale = stale_memo(s_code, ns) if ns else []
             if stale:
                 # whatever else changed: the function now keeps something between calls that the reviewed one did not, and hands
